@@ -1758,6 +1758,10 @@ def e2e_project(seed, nops, tier):
                                                         coq_strs(before["fs"]), coq_strs(tree["expendable"]))
             rec["cases"].append((cin, want, {"op": argv, "history": list(history), "deleted": deleted}))
         rec["history"] = history
+    except subprocess.TimeoutExpired as e:
+        # an overloaded machine (a Bob invocation did not finish in time) is not a statement about the code: the
+        # history ends here, what was compared so far stays
+        rec["timeout"] = str(e)[:200]
     except Exception as e:
         import traceback
         rec["errors"].append({"exception": traceback.format_exc()[-2000:]})
@@ -1785,6 +1789,9 @@ def part_e2e(ctx, extra, started=None):
     for rec in recs:
         for k, v in rec["counts"].items():
             ctx.count(k, v)
+        if rec.get("timeout"):
+            ctx.count("e2e:history-cut-short-by-a-bob-timeout(machine overload)")
+            ctx.note("e2e seed %s: %s" % (rec["seed"], rec["timeout"]))
         for e in rec["errors"]:
             ctx.tie_broken("e2e-run-failed", {"part": "e2e", "seed": rec["seed"], "detail": e})
         for sig, what, where in rec["violations"]:
